@@ -19,6 +19,7 @@ import (
 	"bytes"
 	"errors"
 	"fmt"
+	"math"
 	"reflect"
 	"sort"
 	"sync"
@@ -1674,6 +1675,10 @@ func (r *RIBHolder) DeleteMPLS(e *aftpb.Afts_LabelEntryKey) (bool, *aft.Afts_Lab
 
 	if _, ok := e.GetLabel().(*aftpb.Afts_LabelEntryKey_LabelUint64); !ok {
 		return false, nil, fmt.Errorf("unsupported label type %T, only uint64 labels are supported, %v", e, e)
+	}
+
+	if l := e.GetLabelUint64(); l > math.MaxUint32 {
+		return false, nil, fmt.Errorf("invalid MPLS label %d, out of range", l)
 	}
 
 	lbl := uint32(e.GetLabelUint64())
